@@ -40,6 +40,26 @@ POOL = [
 ]
 QUICK_POOL = [p for p in POOL if p[0] in ('H', 'H+', 'H-', 'H--', 'e-', 'E', 'oH2', '#H', 'GH', '#1H', '#2H', 'GRAIN0', 'H2*', 'c-C3H2', 'CO')]
 
+# upper-case UCLCHEM convention: element list in capitals, a replacement table that restores the usual symbols
+UCL_ELEMENTS = ["E", "H", "HE", "C", "O"]
+UCL_PSEUDO = ["CRP", "PHOTON"]
+UCL_REPLACEMENT = {"HE": "He", "E": "e"}
+UCL_POOL = [
+    ("H", {}, "H"),
+    ("H+", {}, "H+"),
+    ("H2", {}, "H2"),
+    ("HE", {}, "He"),
+    ("HE+", {}, "He+"),
+    ("HE++", {}, "He++"),
+    ("E-", {}, "electron"),
+    ("HEH+", {}, "HeH+"),
+    ("CO", {}, "CO"),
+    ("#HE", {}, "ice:He"),
+    ("#CO", {}, "ice:CO"),
+    ("C-", {}, "C-"),
+]
+UCL_ALIASES = {"H": "HI", "H+": "HII", "H2": "H2I", "He": "HeI", "He+": "HeII", "He++": "HeIII", "electron": "eM", "HeH+": "HeHII", "CO": "COI", "ice:He": "GHeI", "ice:CO": "GCOI", "C-": "CM"}
+
 IDENT = re.compile(r"^[A-Za-z_][A-Za-z0-9_]*$")
 
 
@@ -54,6 +74,13 @@ def subsets(tier):
             if names & {"GRAIN0", "GRAIN0-"} and names & {"#1H", "#2H"}:
                 continue
             yield sel
+
+
+def ucl_subsets(tier):
+    kmax = 3 if tier == "quick" else 4
+    for k in range(1, kmax + 1):
+        for c in itertools.combinations(UCL_POOL, k):
+            yield list(c)
 
 
 def parse_macro_lines(text):
@@ -79,11 +106,24 @@ def py_assignments(text):
     return out
 
 
-def build(entries, via):
+def build(entries, via, ucl=False):
     from naunet.network import Network
     from naunet.reactions.reaction import Reaction
     from naunet.reactiontype import ReactionType
     from naunet.species import Species
+
+    if ucl:
+        # what RenderCommand does for such a project
+        Species._replacement = dict(UCL_REPLACEMENT)
+        Species.set_known_elements(list(UCL_ELEMENTS))
+        Species.set_known_pseudoelements(list(UCL_PSEUDO))
+        kw = {"elements": list(UCL_ELEMENTS), "pseudo_elements": list(UCL_PSEUDO)}
+        names = [n for n, _, _ in entries]
+        if via == "required":
+            return Network(required_species=names, **kw)
+        reac = names[:2] if len(names) > 2 else names[:1]
+        prod = names[2:] if len(names) > 2 else (names[1:] or names[:1])
+        return Network([Reaction(reac, prod, reaction_type=ReactionType.GAS_TWOBODY, alpha=1.0)], **kw)
 
     if via == "required":
         if any(kw for _, kw, _ in entries):
@@ -159,21 +199,22 @@ def check_files(files, backend, nexp, label, viols, ids_expected):
 
 
 def run_case(arg):
-    idx, entries, tier = arg
+    idx, entries, tier = arg[:3]
+    ucl = len(arg) > 3 and arg[3] == "ucl"
     from ..harness.render import render, reset_globals, quiet, scratch
 
     viols = []
-    label = "+".join(n + ("[G]" if kw else "") for n, kw, _ in entries)
-    case = {"species": [[n, kw] for n, kw, _ in entries]}
+    label = ("UCL:" if ucl else "") + "+".join(n + ("[G]" if kw else "") for n, kw, _ in entries)
+    case = {"species": [[n, kw] for n, kw, _ in entries], "ucl": ucl}
     nexp = len({i for _, _, i in entries})
     nart = 0
     for via in ("reaction", "required"):
         reset_globals()
         try:
             with quiet():
-                net = build(entries, via)
+                net = build(entries, via, ucl)
         except Exception as e:
-            viols.append((f"C09:build-error:{via}:{type(e).__name__}", f"{label} via {via}: {e!r}", None))
+            viols.append((f"C09:build-error:{'ucl:' if ucl else ''}{via}:{type(e).__name__}", f"{label} via {via}: {e!r}", None))
             continue
         if net is None:
             continue
@@ -195,6 +236,10 @@ def run_case(arg):
             continue
         spec = base[0]
         order = [n[4:] for n, v in sorted(spec, key=lambda t: int(t[1]) if t[1].isdigit() else 0)]
+        if ucl:
+            want = sorted(UCL_ALIASES[i] for i in {i for _, _, i in entries})
+            if sorted(order) != want:
+                viols.append((f"C09:ucl-aliases", f"{label} via {via}: macros {sorted(order)}, the replacement table prescribes {want}", None))
         # summary block through NetworkConfiguration (export path)
         try:
             import tomlkit
@@ -289,8 +334,9 @@ def run(ctx):
     import multiprocessing as mp
 
     work = [(i, s, ctx.tier) for i, s in enumerate(subsets(ctx.tier))]
+    uwork = [(i, s, ctx.tier, "ucl") for i, s in enumerate(ucl_subsets(ctx.tier))]
     nart = 0
-    for n, viols in ctx.pmap(run_case, work, chunksize=8):
+    for n, viols in ctx.pmap(run_case, work + uwork, chunksize=8):
         nart += n
         ctx.absorb(viols)
     # CLI slice: gas-only sets (export of ice species needs binding energies) in fresh processes
@@ -302,13 +348,14 @@ def run(ctx):
             ctx.absorb(viols)
     ctx.assumptions += [
         "species identity of the reference: spellings e-/E are one species, '#H' and 'GH'(surface_prefix G) are one species, every other pool name is its own species",
+        "upper-case convention (elements E,H,HE,C,O; replacement HE->He, E->e as in the bundled cloud example): HE/HE+/HE++/HEH+/#HE are helium species, E- is the electron; expected aliases follow the replaced names",
         "identifier legality: ^[A-Za-z_][A-Za-z0-9_]*$ and not a Python keyword",
         "Enzo patch: count, order, distinctness and legality of the A_<alias> table and the ENZO_NSPECIES count (network U Grackle species by identity, minus the electron) are judged; grackle aliases intentionally differ from the macro aliases",
     ]
     return {
         "evaluations": nart + ncli,
         "distinct_nontrivial": len(work),
-        "rule": "all subsets (size 1..4, quick 1..3) of a pool covering the naming conventions, each entered through a reaction and through required_species, x 4 back-ends; artefacts: naunet_macros.h, constant_indexes.py, constants.py, NetworkConfiguration summary, naunet_enzo.h (slice), render-command summary (slice, fresh processes); distinct = species set",
+        "rule": "all subsets (size 1..4, quick 1..3) of a pool covering the naming conventions and of a second pool under the upper-case element list with replacement, each entered through a reaction and through required_species, x 4 back-ends; artefacts: naunet_macros.h, constant_indexes.py, constants.py, NetworkConfiguration summary, naunet_enzo.h (slice), render-command summary (slice, fresh processes); distinct = species set",
         "samples": ["+".join(n for n, _, _ in s) for _, s, _ in work[:: max(1, len(work) // 6)]],
         "species_sets": len(work),
         "cli_render_runs": ncli,
@@ -319,11 +366,14 @@ def run(ctx):
 
 def replay(ctx, case):
     entries = []
+    pool = UCL_POOL if case.get("ucl") else POOL
     for n, kw in case["species"]:
-        ident = next(i for nn, k, i in POOL if nn == n and k == kw)
+        ident = next(i for nn, k, i in pool if nn == n and k == kw)
         entries.append((n, kw, ident))
     if case.get("cli"):
         n, viols = run_cli_slice((0, entries))
+    elif case.get("ucl"):
+        n, viols = run_case((0, entries, "thorough", "ucl"))
     else:
         n, viols = run_case((0, entries, "thorough"))
     ctx.absorb(viols)
